@@ -221,8 +221,76 @@ def check_doc(nodes, src, case, res):
     return labels
 
 
+TRICKY_BODIES = ['\n\nText', ' (a) b', '  \n x', 'a\n\nb', ' &x', '\t(', 'plain', ' x ', '\n', ' ~y', 'a (b', '\n\n\nq', ' _i + 1', ' #1']
+STRING_CONTEXTS = [('', ''), ('A ', ' Z'), ('\\begin{o}p ', ' q\\end{o}'), ('{g ', ' h}'), ('\\begin{itemize}\\item i ', ' j\\end{itemize}'),
+                   ('\\c{u ', ' v}')]
+STRING_TARGETS = [('env', '\\begin{e}', '\\end{e}'), ('env', '\\begin{equation}', '\\end{equation}'), ('env', '\\begin{verbatim}', '\\end{verbatim}'),
+                  ('math', '$', '$'), ('cmd', '\\t{', '}'), ('cmd', '\\t[', ']')]
+
+
+def check_string_case(ctx_i, tgt_i, body, new):
+    from TexSoup import TexSoup
+    pre, suf = STRING_CONTEXTS[ctx_i]
+    kind, b, e = STRING_TARGETS[tgt_i]
+    src = pre + b + body + e + suf
+    case = {'src': src, 'sub': 'string-stage', 'op': 'string', 'arg': new, 'target': len(pre), 'ctx': ctx_i, 'tgt': tgt_i, 'body': body}
+    soup = D.parse(src, 'C14', case)
+    t = D.locate(soup, len(pre))
+    if t is None:
+        raise H.HarnessError('cannot locate target in %r' % src)
+    cs = list(t.contents)
+    if kind != 'cmd' and not (len(cs) == 1 and isinstance(cs[0], str)):
+        return None     # the setter's documented precondition (exactly one text child) does not hold
+    try:
+        t.string = new
+    except Exception as ex:  # noqa
+        raise H.Violation('C14:string:raised-%s@%s' % (type(ex).__name__, H.inner_frame(ex)), case, repr(ex)[:200])
+    want = pre + b + new + e + suf
+    case['expected_text'] = want
+    if str(soup) != want:
+        raise H.Violation('C14:string:text', case, 'document is %r, expected %r' % (str(soup)[:200], want[:200]))
+    got = t.string
+    if str(got) != new:
+        raise H.Violation('C14:string:readback', case, '.string reads back %r' % (got,))
+    return case
+
+
 def plan(ctx):
-    return [('shard_docs', [('doc', 'strict', ctx.pick(140, 2500), i) for i in range(16)])]
+    return [('shard_strings', [('str', i, 8) for i in range(8)]),
+            ('shard_docs', [('doc', 'strict', ctx.pick(140, 2500), i) for i in range(16)])]
+
+
+def shard_strings(ctx, shard):
+    _, idx, nshard = shard
+    H.import_repo()
+    res = H.Result()
+    seen = set()
+    count = 0
+    for ci in range(len(STRING_CONTEXTS)):
+        for ti in range(len(STRING_TARGETS)):
+            for body in TRICKY_BODIES:
+                for new in STRINGS:
+                    count += 1
+                    if count % nshard != idx:
+                        continue
+                    if STRING_TARGETS[ti][1].endswith('[') and ']' in body:
+                        continue
+                    if STRING_TARGETS[ti][2] == '\\end{verbatim}' and G.ATTACH_RE.match(body):
+                        continue
+                    try:
+                        case = check_string_case(ci, ti, body, new)
+                    except H.Violation as v:
+                        if v.kind not in seen:
+                            seen.add(v.kind)
+                            res.violations.append(v.record())
+                        continue
+                    if case is None:
+                        res.excluded['string-setter-precondition-not-met'] += 1
+                        continue
+                    res.case((case['src'], new), body != body.strip() or '\n' in body, sample=case['src'], classes=['string-stage:' + STRING_TARGETS[ti][0]])
+                    res.hist['edit:string-stage'] += 1
+    res.exhaustive['string assignment: contexts x targets x tricky bodies x new strings (this run)'] = count
+    return res
 
 
 def shard_docs(ctx, shard):
@@ -241,6 +309,9 @@ def replay(case):
     # from the recorded expectation
     from TexSoup import TexSoup
     src = case['src']
+    if case.get('sub') == 'string-stage':
+        check_string_case(case['ctx'], case['tgt'], case['body'], case['arg'])
+        return
     if 'expected_text' not in case:
         return
     soup = TexSoup(src)
